@@ -146,6 +146,74 @@ theorem update_keeps_idx (old m : Meta) (mg : Bool) (x : String) (hx : mget old 
     rw [hx] at this
     exact (Option.some.inj this).symm
 
+/-! ### client filters are blind to the server-owned keys -/
+
+theorem get_strip (m : Meta) (k : String) (hk : reserved k = false) :
+    MetaMap.get (strip m) k = MetaMap.get m k := by
+  unfold MetaMap.get strip
+  induction m with
+  | nil => rfl
+  | cons p rest ih =>
+    by_cases hr : reserved p.1 = true
+    · have hne : (p.1 == k) = false := by
+        simp only [beq_eq_false_iff_ne, ne_eq]
+        intro e; rw [e, hk] at hr; cases hr
+      simp only [List.filter_cons, hr, Bool.not_true, List.find?_cons, hne]
+      exact ih
+    · have hr' : reserved p.1 = false := by simpa using hr
+      simp only [List.filter_cons, hr', Bool.not_false, if_true, List.find?_cons]
+      split
+      · rfl
+      · exact ih
+
+section
+variable (parse : String → Option Nat)
+
+theorem matchesRange_strip (k : String) (b : Option Bound) (m : Meta) (hk : reserved k = false) :
+    matchesRange parse k b (strip m) = matchesRange parse k b m := by
+  unfold matchesRange
+  rw [get_strip m k hk]
+
+mutual
+/-- a filter that names no server-owned key gives the same verdict on the stored metadata and on
+    what the client can read back -/
+theorem matchesF_strip : ∀ (f : Filter) (m : Meta), mentionsReserved f = false →
+    matchesF parse f (strip m) = matchesF parse f m
+  | .none, _, _ => by simp [matchesF]
+  | .exact k v, m, h => by
+    simp only [mentionsReserved] at h
+    simp only [matchesF, get_strip m k h]
+  | .range k b, m, h => by
+    simp only [mentionsReserved] at h
+    simp only [matchesF, matchesRange_strip parse k b m h]
+  | .inMatch k vs, m, h => by
+    simp only [mentionsReserved] at h
+    simp only [matchesF, get_strip m k h]
+  | .and fs, m, h => by
+    simp only [mentionsReserved] at h
+    simp only [matchesF, allF_strip fs m h]
+  | .or fs, m, h => by
+    simp only [mentionsReserved] at h
+    simp only [matchesF, anyF_strip fs m h]
+  | .not none, _, _ => by simp [matchesF]
+  | .not (some f), m, h => by
+    simp only [mentionsReserved] at h
+    simp only [matchesF, matchesF_strip f m h]
+theorem allF_strip : ∀ (fs : List Filter) (m : Meta), anyMentions fs = false →
+    allF parse fs (strip m) = allF parse fs m
+  | [], _, _ => by simp [allF]
+  | f :: fs, m, h => by
+    simp only [anyMentions, Bool.or_eq_false_iff] at h
+    simp only [allF, matchesF_strip f m h.1, allF_strip fs m h.2]
+theorem anyF_strip : ∀ (fs : List Filter) (m : Meta), anyMentions fs = false →
+    anyF parse fs (strip m) = anyF parse fs m
+  | [], _, _ => by simp [anyF]
+  | f :: fs, m, h => by
+    simp only [anyMentions, Bool.or_eq_false_iff] at h
+    simp only [anyF, matchesF_strip f m h.1, anyF_strip fs m h.2]
+end
+end
+
 /-! ### the census -/
 
 def matchT (t : Tn) (d : Doc) : Bool := mget d.md kTenantIdx == some t.idxStr
